@@ -1,0 +1,22 @@
+//go:build verif
+
+package shard
+
+import "github.com/semafind/semadb/diskstore"
+
+// VerifDB returns the storage handle of the shard. Verification hook, only
+// compiled with the verif build tag.
+func (s *Shard) VerifDB() diskstore.DiskStore {
+	return s.db
+}
+
+// VerifSetDB replaces the storage handle of the shard, e.g. with a fault
+// injecting proxy. Verification hook, only compiled with the verif build tag.
+func (s *Shard) VerifSetDB(db diskstore.DiskStore) {
+	s.db = db
+}
+
+// VerifDBFile returns the cache root / database file name of the shard.
+func (s *Shard) VerifDBFile() string {
+	return s.dbFile
+}
